@@ -1,14 +1,24 @@
 #!/bin/bash
-# Extract the executable models and build the OCaml driver into /verif/build/ocaml/driver.
+# Extract the executable models and build the OCaml driver.
+#   tools/build_driver.sh            -> all Exec/*_ops.v  -> /verif/build/ocaml/driver
+#   tools/build_driver.sh C03 C16    -> only those ops    -> /verif/build/ocaml-C03-C16/driver  (development)
+# Extraction uses ExtrOcamlBasic only; no Extract Constant / Extract Inductive of our own.
 set -e
 V=/verif
-mkdir -p $V/build/ocaml
-exec 8>$V/build/ocaml/.lock
+if [ $# -gt 0 ]; then MODS="$@"; OUT=$V/build/ocaml-$(echo "$@" | tr ' ' '-'); else
+  MODS=$(ls $V/coq/theories/Exec/*_ops.v | sort | xargs -n1 basename | sed 's/_ops\.v$//'); OUT=$V/build/ocaml; fi
+mkdir -p $OUT
+exec 8>$OUT/.lock
 flock 8
-cd $V/build/ocaml
-# rebuild only when an input is newer than the binary
-if [ -x driver ] && [ -z "$(find $V/coq/theories $V/coq/extract $V/ocaml -newer driver \( -name '*.vo' -o -name '*.v' -o -name '*.ml' \) | head -1)" ]; then exit 0; fi
-cp $V/coq/extract/Extract.v .
-timeout 600 coqc -Q $V/coq/theories QV Extract.v >/dev/null
+cd $OUT
+if [ -x driver ] && [ -z "$(find $V/coq/theories/Exec $V/coq/theories/Model $V/coq/theories/Core $V/ocaml $V/tools/build_driver.sh -newer driver \( -name '*.vo' -o -name '*.ml' -o -name '*.sh' \) | head -1)" ] && [ "$(cat mods.txt 2>/dev/null)" = "$MODS" ]; then exit 0; fi
+{ echo "From Coq Require Import ExtrOcamlBasic List ZArith Qcanon."
+  echo "From QV.Exec Require Import Base."
+  for m in $MODS; do echo "From QV.Exec Require ${m}_ops."; done
+  echo "Definition ops : optable := nil"; for m in $MODS; do echo "  ++ ${m}_ops.${m}_ops"; done; echo "."
+  echo "Definition run (name : string) (zs : list Z) (qs : list Qc) : res := run_table ops name zs qs."
+  echo 'Extraction "model.ml" run rat_make rat_num rat_den.'; } > Extract.v
+timeout 900 coqc -Q $V/coq/theories QV Extract.v >/dev/null
 cp $V/ocaml/driver.ml .
-timeout 600 ocamlfind ocamlopt -w -a -unboxed-types 2>/dev/null >/dev/null; timeout 600 ocamlfind ocamlopt -w -a -inline 100 model.mli model.ml driver.ml -o driver
+timeout 900 ocamlfind ocamlopt -w -a -inline 100 -O3 model.mli model.ml driver.ml -o driver 2>/dev/null || timeout 900 ocamlfind ocamlopt -w -a -inline 100 model.mli model.ml driver.ml -o driver
+echo "$MODS" > mods.txt
